@@ -108,9 +108,70 @@ impl Property for C18 {
                 }
             })
             .exhaustive(),
+            // a def whose name is in use already - as the name of an earlier defm (whose records are called
+            // otherwise), or as that of a def of another multiclass - is a named def like any other: at top level,
+            // in a block, in a defset, with and without fields
+            Family::new("names-in-use", 1, |_c, _r, emit| {
+                for place in 0..4u64 {
+                    for shape in 0..3u64 {
+                        for fields in 0..2u64 {
+                            if !emit(json!({"kind": "names-in-use", "place": place, "shape": shape, "fields": fields})) {
+                                return;
+                            }
+                        }
+                    }
+                }
+            })
+            .exhaustive(),
         ]
     }
     fn run_case(&self, _ctx: &Ctx, case: &Case) -> Verdict {
+        if case["kind"] == "names-in-use" {
+            let (Some(place), Some(shape), Some(fields)) = (case["place"].as_u64(), case["shape"].as_u64(), case["fields"].as_u64()) else { return Verdict::Skip("malformed-case") };
+            // what makes the name known before the def: a defm of that name (its records are R0_lo, R0_hi), a def
+            // of that name inside a multiclass (a part of the names of other records), both
+            let before = match shape % 3 {
+                0 => "multiclass Pair { def _lo : Reg; def _hi : Reg; }\ndefm R0 : Pair;\n",
+                1 => "multiclass Pair { def R0 : Reg; def _hi : Reg; }\n",
+                _ => "multiclass Pair { def R0 : Reg; }\nmulticlass Quad { def R0 : Reg; defm _p : Pair; }\ndefm R0 : Quad;\n",
+            };
+            let body = if fields % 2 == 1 { " { int x = 1; let y = 2; }" } else { ";" };
+            let decl = format!("def R0 : Reg{body}");
+            let (open, close) = match place % 4 {
+                0 => ("", ""),
+                1 => ("let y = 3 in {\n", "\n}"),
+                2 => ("if 1 then {\n", "\n}"),
+                _ => ("defset list<Reg> All = {\n", "\n}"),
+            };
+            let head = "class Reg { int y = 0; }\n";
+            let text = format!("{head}{before}{open}{decl}{close}\ndef after : Reg;\n");
+            let at = head.len() + before.len() + open.len() + "def ".len();
+            let ws = crate::ws::Workspace::new(&[("root.td".to_string(), text.clone())], "root.td");
+            let a = ws.analysis();
+            let syms = a.document_symbol(ws.root).unwrap_or_default();
+            let pool: Vec<&DocumentSymbol> = if place % 4 == 3 {
+                match syms.iter().find(|s| s.name == "All") {
+                    Some(s) => s.children.iter().collect(),
+                    None => return Verdict::Fail(Failure::plain("C18.outline", format!("no outline entry for the defset All in\n{text}"))),
+                }
+            } else {
+                syms.iter().collect()
+            };
+            let hits: Vec<&&DocumentSymbol> = pool.iter().filter(|s| r2(s.range) == (at, at + 2)).collect();
+            let show = |v: &[&DocumentSymbol]| v.iter().map(|s| format!("{}@{:?}", s.name, r2(s.range))).collect::<Vec<_>>();
+            if hits.len() != 1 || hits[0].name != "R0" || !matches!(hits[0].kind, DocumentSymbolKind::Def) {
+                return Verdict::Fail(Failure::new("C18.outline-entry", "C18.outline-entry:names-in-use", format!("the def R0 at {at} is not listed once, as a def of that name at its identifier: entries {:?}\n{text}", show(&pool))));
+            }
+            let kids: Vec<String> = hits[0].children.iter().map(|c| c.name.to_string()).collect();
+            let want: Vec<String> = if fields % 2 == 1 { vec!["x".into(), "y".into()] } else { vec![] };
+            if kids != want {
+                return Verdict::Fail(Failure::new("C18.outline-entry", "C18.outline-entry:names-in-use", format!("children of the def R0: {kids:?}, expected {want:?}\n{text}")));
+            }
+            if !syms.iter().any(|s| s.name == "after") {
+                return Verdict::Fail(Failure::new("C18.outline", "C18.outline:names-in-use", format!("the def behind it is missing: {:?}\n{text}", show(&syms.iter().collect::<Vec<_>>()))));
+            }
+            return Verdict::pass(true);
+        }
         if case["kind"] == "unresolved-parent" {
             let (Some(missing), Some(lets), Some(kind)) = (case["missing"].as_u64(), case["lets"].as_u64(), case["record"].as_u64()) else { return Verdict::Skip("malformed-case") };
             // parents P1, P2 (which inherits a0 from P0), P3; position `missing` (0..3) is replaced by an undeclared
